@@ -118,6 +118,14 @@ def mk_bool(op, items):
     return (op, tuple(res))
 
 
+def as_display(t):
+    """a record built in place, iterated: its field values in field order (the constructor term keeps them in that order)"""
+    if t[0] == 'call' and isinstance(t[1], str) and t[1].startswith('namedtuple.') and t[3] and all(
+            isinstance(k, str) and not k.startswith('#') and k != '**' and v[0] != 'star' for k, v in t[3]):
+        return ('tuple', tuple(v for _, v in t[3]))
+    return t
+
+
 def _boolean(t):
     """the term can only be True or False"""
     if t in (TRUE, FALSE):
@@ -983,7 +991,7 @@ class SVal:
         if isinstance(e, (ast.ListComp, ast.GeneratorExp)) and len(e.generators) == 1 and not e.generators[0].ifs \
                 and not e.generators[0].is_async and isinstance(e.generators[0].target, ast.Name):
             # [f(x) for x in (a, b)] is [f(a), f(b)]
-            it0 = self.ev(e.generators[0].iter, env, pc, record)
+            it0 = as_display(self.ev(e.generators[0].iter, env, pc, record))
             if it0[0] in ('tuple', 'list') and 1 <= len(it0[1]) <= 8 and not any(
                     isinstance(x, tuple) and x and x[0] in ('star', 'when', 'each', 'acc') for x in it0[1]):
                 items = []
